@@ -1060,7 +1060,7 @@ class Fxp():
                     val = val.astype(dtype)
             elif dtype == int or dtype == 'uint' or dtype == 'int' or np.issubdtype(dtype, np.integer):
                 if self.n_frac == 0:
-                    val = raw_val
+                    val = raw_val.copy() if isinstance(raw_val, np.ndarray) else raw_val     # (never the buffer of raw values itself)
                 else:
                     val = np.asarray(raw_val // self._get_conv_factor())
                     val = np.array(list(map(int, val.flatten()))).reshape(val.shape)
